@@ -145,6 +145,11 @@ func (m *module) loadModule(proj *Project, rawLabel string) (starlark.StringDict
 	}
 	label, _ = label.RelativeTo(m.label.Package)
 	label.Kind = "module"
+	if label.Name == "" {
+		// A package label names the package's BUILD file. Spell it the way the package loader
+		// does, so that the file is registered--and executed--only once.
+		label.Name = "BUILD.dawn"
+	}
 
 	m.dependencies = append(m.dependencies, label.String())
 	return proj.loadModule(m, label)
